@@ -23,6 +23,7 @@ func c05ProbeRules(c *core.Ctx) {
 	c.Rule("C05.numbase", "A4 (bounds by go/cfg guard dataflow): F111: every value stored into NumberNode.Base is a constant in 2..36 or a variable tested to be >= 2 and <= 36 on every path to the store; strconv.FormatInt panics outside that range")
 	if root := c.P.Pkg(""); root != nil {
 		c05AlertTmpl(c, root)
+		c05GroupByTime(c, root)
 		if pp := c.P.Pkg("pipeline"); pp != nil {
 			c05IQLArgs(c, root, pp)
 		} else {
@@ -584,4 +585,66 @@ func c05NumBase(c *core.Ctx, ap *packages.Package) {
 		})
 	}
 	c.Floor("C05.numbase", "stores into NumberNode.Base", n, 3)
+}
+
+// c05GroupByTime (F122): Query.SetStartTime divides by the length of the GROUP BY time dimension (alignGroup) on the goroutine
+// that runs the queries, which nothing recovers. Every DurationLiteral that Query.Dimensions stores as groupByTimeDL is built
+// from a value tested to be positive on all paths to the store.
+func c05GroupByTime(c *core.Ctx, root *packages.Package) {
+	c.Rule("C05.groupbytime", "A4 (bounds by go/cfg guard dataflow): F122: the length Query.Dimensions stores as the GROUP BY time dimension (the divisor of alignGroup's offset computation in SetStartTime) is tested to be greater than zero on every path to the store")
+	info := root.TypesInfo
+	fn := c.Need("C05.groupbytime", "", "Query", "Dimensions")
+	set := c.Need("C05.groupbytime", "", "Query", "SetStartTime")
+	if fn == nil || set == nil {
+		return
+	}
+	// is there a division by the stored length at all?
+	divides := false
+	ast.Inspect(set.Decl.Body, func(n ast.Node) bool {
+		if b, ok := n.(*ast.BinaryExpr); ok && (b.Op == token.REM || b.Op == token.QUO) {
+			if sel, ok := ast.Unparen(b.Y).(*ast.SelectorExpr); ok && an.FieldSel(info, sel.X, "Query", "groupByTimeDL") {
+				divides = true
+			}
+		}
+		return true
+	})
+	if !divides {
+		c.Ok("C05.groupbytime", "Query.SetStartTime#no-division", "SetStartTime does not divide by the time dimension")
+		return
+	}
+	c.Analysed(fn)
+	n := 0
+	ast.Inspect(fn.Decl.Body, func(nd ast.Node) bool {
+		as, ok := nd.(*ast.AssignStmt)
+		if !ok || len(as.Lhs) != 1 || len(as.Rhs) != 1 || !an.FieldSel(info, as.Lhs[0], "Query", "groupByTimeDL") {
+			return true
+		}
+		if types.ExprString(as.Rhs[0]) == "nil" {
+			return true
+		}
+		n++
+		// &influxql.DurationLiteral{Val: X}
+		var val ast.Expr
+		if u, ok := ast.Unparen(as.Rhs[0]).(*ast.UnaryExpr); ok {
+			if cl, ok := u.X.(*ast.CompositeLit); ok {
+				for _, el := range cl.Elts {
+					if kv, ok := el.(*ast.KeyValueExpr); ok {
+						if k, ok := kv.Key.(*ast.Ident); ok && k.Name == "Val" {
+							val = kv.Value
+						}
+					}
+				}
+			}
+		}
+		cons := "Query.Dimensions#length" + strconv.Itoa(n)
+		if val == nil {
+			c.Fail("C05.groupbytime", cons, as.Pos(), "the time dimension is stored from something else than a DurationLiteral built here: its length is not known to be positive")
+			return true
+		}
+		text := types.ExprString(ast.Unparen(val))
+		okk := guardedBy(fn.Decl.Body, as, text, func(cond ast.Expr, br bool) bool { return impliesBound(info, cond, br, text, 1, false) })
+		c.Check(okk, "C05.groupbytime", cons, as.Pos(), "Query.Dimensions stores %s as the length of the GROUP BY time dimension without having tested it to be greater than zero on every path: with alignGroup, SetStartTime computes start %% length for every tick on the goroutine that runs the queries — batch|query(…).groupBy(time(0s)).alignGroup() is accepted and the integer division by zero ends the process at the first tick", text)
+		return true
+	})
+	c.Floor("C05.groupbytime", "stores of the time dimension", n, 2)
 }
